@@ -982,7 +982,7 @@ theorem asmAndNotLoop_conj (w k : Nat) (x : List Nat) : ∀ (f i out : Nat), out
     dsimp only
     by_cases hc : (decide (i ≥ x.length) || decide (i * w ≥ k)) = true
     · simp only [hc, if_true]; rfl
-    · simp only [hc, if_false, bnot]
+    · simp only [hc, bnot]
       rw [idx_map]
       cases idx x i with
       | panic => rfl
@@ -1044,5 +1044,341 @@ theorem II.castToPrim_eq {w n : Nat} {x : List Nat} (hw : 1 ≤ w) (hn : 1 ≤ n
     rfl
   · simp only [hneg, decide_false, Bool.false_eq_true, if_false]
     rw [UI.castToPrim_eq hx, S_of_nonneg hx (by omega), wrapU_natCast]
+
+theorem set_append_replicate (pre : List Nat) {k : Nat} (d v : Nat) (hk : 0 < k) :
+    (pre ++ List.replicate k d).set pre.length v = (pre ++ [v]) ++ List.replicate (k - 1) d := by
+  obtain ⟨j, rfl⟩ : ∃ j, k = j + 1 := ⟨k - 1, by omega⟩
+  rw [List.set_append]
+  simp [List.replicate_succ]
+
+theorem map_dig_succ (w v i : Nat) :
+    (List.range (i + 1)).map (dig w v) = (List.range i).map (dig w v) ++ [dig w v i] := by
+  rw [List.range_succ, List.map_append]; rfl
+
+theorem and_mask (x w : Nat) : x &&& (B w - 1) = x % B w := Nat.and_two_pow_sub_one_eq_mod x w
+
+theorem not_mod_mul {b X a : Nat} (hb : 0 < b) (ha : a < b * X) :
+    (b * X - 1 - a) % b = b - 1 - a % b ∧ (b * X - 1 - a) / b = X - 1 - a / b := by
+  have h1 := Nat.div_add_mod a b
+  have h2 := Nat.mod_lt a hb
+  have hq : a / b < X := (Nat.div_lt_iff_lt_mul hb).2 (by rw [Nat.mul_comm]; exact ha)
+  obtain ⟨t, rfl⟩ : ∃ t, X = a / b + 1 + t := ⟨X - 1 - a / b, by omega⟩
+  have e : b * (a / b + 1 + t) - 1 - a = b * t + (b - 1 - a % b) := by
+    have : b * (a / b + 1 + t) = b * (a / b) + b + b * t := by ring
+    omega
+  rw [e]
+  constructor
+  · rw [Nat.mul_add_mod, Nat.mod_eq_of_lt (by omega)]
+  · rw [Nat.mul_add_div hb, Nat.div_eq_of_lt (by omega)]; omega
+
+namespace UI
+/-- the list the loop has built after `i` iterations -/
+def asBuintSt (w n v i : Nat) : List Nat := (List.range i).map (dig w v) ++ List.replicate (n - i) 0
+
+theorem asBuintSt_upd {w n v i : Nat} (hi : i < n) :
+    upd (asBuintSt w n v i) i (dig w v i) = .ok (asBuintSt w n v (i + 1)) := by
+  unfold asBuintSt
+  rw [upd_eq _ (by simp; omega)]
+  have := set_append_replicate ((List.range i).map (dig w v)) 0 (dig w v i) (show 0 < n - i by omega)
+  simp only [List.length_map, List.length_range] at this
+  rw [this, map_dig_succ, show n - i - 1 = n - (i + 1) by omega]
+
+theorem asBuintSt_WF (w n v : Nat) {i : Nat} (hi : i ≤ n) : WF w n (asBuintSt w n v i) := by
+  have := WF_append (WF_map_dig w v i) (WF_replicate (w := w) (n - i) (B_pos w))
+  rwa [show i + (n - i) = n by omega] at this
+
+theorem asBuintSt_U (w n v i : Nat) : U w (asBuintSt w n v i) = v % B w ^ i := by
+  unfold asBuintSt; rw [U_append_replicate_zero, U_map_dig]
+
+/-- `as_buint!` on a non-negative source -/
+theorem asBuintLoop_nonneg {w n : Nat} {t : PTy} {p : Nat} (hp : p < B t.bits)
+    (hnn : t.signed = true → 2 * p < B t.bits) : ∀ (f i : Nat), f + i = n →
+    ∃ r, asBuintLoop w t f i (p / B w ^ i) (asBuintSt w n p i) = .ok r ∧ WF w n r
+      ∧ U w r = p % M w n := by
+  intro f
+  induction f with
+  | zero =>
+    intro i hi
+    have : i = n := by omega
+    subst this
+    exact ⟨_, rfl, asBuintSt_WF w i p (Nat.le_refl _), by rw [asBuintSt_U, M_eq_pow]⟩
+  | succ f ih =>
+    intro i hi
+    unfold asBuintLoop
+    by_cases h0 : p / B w ^ i = 0
+    · simp only [h0, bne_self_eq_false, Bool.false_eq_true, if_false]
+      refine ⟨_, rfl, asBuintSt_WF w n p (by omega), ?_⟩
+      have hlt : p < B w ^ i := by
+        rcases Nat.div_eq_zero_iff.mp h0 with h | h
+        · exact absurd h (Nat.ne_of_gt (Nat.pow_pos (B_pos w)))
+        · exact h
+      have : p < M w n := by
+        rw [M_eq_pow]; exact Nat.lt_of_lt_of_le hlt (B_pow_le (by omega))
+      rw [asBuintSt_U, Nat.mod_eq_of_lt hlt, Nat.mod_eq_of_lt this]
+    · have hne : (p / B w ^ i != 0) = true := by simp [h0]
+      simp only [hne, if_true]
+      have hfp : p / B w ^ i ≤ p := Nat.div_le_self _ _
+      generalize hfrm : p / B w ^ i = frm at *
+      have hmask : PInt.cast t.bits t.signed w frm &&& (B w - 1) = dig w p i := by
+        rw [and_mask]
+        unfold dig PInt.cast
+        rw [hfrm]
+        split
+        · exact Nat.mod_mod _ _
+        · have hs : (t.signed && decide (B t.bits ≤ 2 * frm)) = false := by
+            cases hsg : t.signed
+            · rfl
+            · have := hnn hsg; simp; omega
+          rw [hs]; rfl
+      rw [hmask, asBuintSt_upd (by omega), Outcome.bind_ok]
+      have hnext : (if t.bits ≤ w then 0 else PInt.wrappingShr t.bits t.signed frm w)
+          = p / B w ^ (i + 1) := by
+        rw [Nat.pow_succ, ← Nat.div_div_eq_div_mul, hfrm]
+        split
+        · rename_i h
+          have : B t.bits ≤ B w := Nat.pow_le_pow_right (by decide) h
+          rw [Nat.div_eq_of_lt (by omega)]
+        · rename_i h
+          unfold PInt.wrappingShr PInt.shrRaw
+          have hs : (t.signed && decide (B t.bits ≤ 2 * frm)) = false := by
+            cases hsg : t.signed
+            · rfl
+            · have := hnn hsg; simp; omega
+          rw [hs, Nat.mod_eq_of_lt (by omega)]; rfl
+      rw [hnext]
+      exact ih (i + 1) (by omega)
+
+/-- `as_buint!` on a negative source no wider than a digit: one sign-extended digit, then MAX -/
+theorem asBuintLoop_neg_narrow {w n : Nat} {t : PTy} {p : Nat} (hn : 1 ≤ n) (hp : p < B t.bits)
+    (hs : t.signed = true) (hneg : B t.bits ≤ 2 * p) (hk : t.bits ≤ w) :
+    ∃ r, asBuintLoop w t n 0 p (allOnes w n) = .ok r ∧ WF w n r
+      ∧ U w r + B t.bits = p + M w n := by
+  obtain ⟨f, rfl⟩ : ∃ f, n = f + 1 := ⟨n - 1, by omega⟩
+  have hle : B t.bits ≤ B w := Nat.pow_le_pow_right (by decide) hk
+  have hp0 : (p != 0) = true := by simp; omega
+  unfold asBuintLoop
+  simp only [hp0, if_true, hk]
+  have hmask : PInt.cast t.bits t.signed w p &&& (B w - 1) = p + B w - B t.bits := by
+    rw [and_mask]
+    unfold PInt.cast
+    split
+    · have : w = t.bits := by omega
+      have hBw : B w = B t.bits := by rw [this]
+      rw [hBw, Nat.mod_mod, Nat.mod_eq_of_lt hp]; omega
+    · simp only [hs, hneg, decide_true, Bool.and_self, if_true]
+      rw [Nat.mod_eq_of_lt (by omega)]; omega
+  rw [hmask, upd_eq _ (by simp [allOnes]), Outcome.bind_ok]
+  have hres : asBuintLoop w t f (0 + 1) 0 ((allOnes w (f + 1)).set 0 (p + B w - B t.bits))
+      = .ok ((p + B w - B t.bits) :: List.replicate f (B w - 1)) := by
+    cases f <;> simp [asBuintLoop, allOnes, List.replicate_succ]
+  rw [hres]
+  refine ⟨_, rfl, ?_, ?_⟩
+  · rw [WF_cons]
+    exact ⟨by omega, WF_replicate f (by have := B_pos w; omega)⟩
+  · rw [U_cons, U_replicate_max, M_succ]
+    have := M_pos w f
+    generalize M w f = m' at *
+    obtain ⟨c, rfl⟩ : ∃ c, m' = c + 1 := ⟨m' - 1, by omega⟩
+    rw [Nat.add_sub_cancel, Nat.mul_add]; omega
+
+/-- `as_buint!` on a negative source wider than a digit: the complement of the digits of `!p` -/
+theorem asBuintLoop_neg_wide {w n : Nat} {t : PTy} {p' : Nat} (hs : t.signed = true)
+    (hk : w < t.bits) (hp' : 2 * p' < B t.bits) : ∀ (f i : Nat), f + i = n →
+    asBuintLoop w t f i (B t.bits - 1 - p' / B w ^ i) (bnot w (asBuintSt w n p' i))
+      = .ok (bnot w (asBuintSt w n p' n)) := by
+  intro f
+  induction f with
+  | zero =>
+    intro i hi
+    have : i = n := by omega
+    subst this; rfl
+  | succ f ih =>
+    intro i hi
+    unfold asBuintLoop
+    have hfp : p' / B w ^ i ≤ p' := Nat.div_le_self _ _
+    generalize hfrm : p' / B w ^ i = a at *
+    have hB2 : 2 ≤ B t.bits := B_ge_two (by omega)
+    have hBe : B t.bits = 2 * (B t.bits / 2) := B_even (by omega)
+    have hne : (B t.bits - 1 - a != 0) = true := bne_iff_ne.2 (by omega)
+    simp only [hne, if_true, show ¬ t.bits ≤ w by omega, if_false]
+    have hBK : B t.bits = B w * B (t.bits - w) := by
+      unfold B; rw [← Nat.pow_add]; congr 1; omega
+    have ha : a < B w * B (t.bits - w) := by omega
+    obtain ⟨hmod, hdiv⟩ := not_mod_mul (B_pos w) ha
+    rw [← hBK] at hmod hdiv
+    have hmask : PInt.cast t.bits t.signed w (B t.bits - 1 - a) &&& (B w - 1)
+        = Prim.not w (dig w p' i) := by
+      rw [and_mask]
+      unfold PInt.cast dig Prim.not
+      rw [if_pos (by omega), Nat.mod_mod, hmod, hfrm]
+    rw [hmask]
+    unfold bnot
+    rw [upd_map, asBuintSt_upd (by omega)]
+    simp only [Outcome.map_ok, Outcome.bind_ok]
+    have hnext : PInt.wrappingShr t.bits t.signed (B t.bits - 1 - a) w
+        = B t.bits - 1 - p' / B w ^ (i + 1) := by
+      unfold PInt.wrappingShr PInt.shrRaw
+      have hsg : (t.signed && decide (B t.bits ≤ 2 * (B t.bits - 1 - a))) = true := by
+        rw [hs, Bool.true_and, decide_eq_true_iff]; omega
+      rw [hsg, if_pos rfl, Nat.mod_eq_of_lt hk, Nat.pow_succ, ← Nat.div_div_eq_div_mul, hfrm]
+      have hq : a / B w < B (t.bits - w) := (Nat.div_lt_iff_lt_mul (B_pos w)).2 (by
+        rw [Nat.mul_comm]; exact ha)
+      have : (B t.bits - 1 - a) / 2 ^ w = B (t.bits - w) - 1 - a / B w := hdiv
+      rw [this]
+      have h1 : B (t.bits - w) ≤ B t.bits := by
+        rw [hBK]; exact Nat.le_mul_of_pos_left _ (B_pos w)
+      omega
+    rw [hnext]
+    exact ih (i + 1) (by omega)
+end UI
+
+/-- the number denoted by pattern `p` of primitive type `t` -/
+def PInt.val (t : PTy) (p : Nat) : Int := if t.signed then toInt (B t.bits) p else (p : Int)
+
+theorem PInt.isNeg_iff {t : PTy} {p : Nat} :
+    PInt.isNeg t p = true ↔ (t.signed = true ∧ B t.bits ≤ 2 * p) := by
+  unfold PInt.isNeg; simp
+
+namespace UI
+theorem asBuintSt_zero (w n v : Nat) : asBuintSt w n v 0 = zero n := by simp [asBuintSt, zero]
+
+/-- C09: primitive → `BUint<N>` (`as_buint!`) -/
+theorem castFromPrim_spec {w n : Nat} {t : PTy} {p : Nat} (hn : 1 ≤ n) (hk : 1 ≤ t.bits)
+    (hp : p < B t.bits) : CastOk w n (castFromPrim w n t p) (PInt.val t p) := by
+  unfold castFromPrim
+  by_cases hneg : PInt.isNeg t p = true
+  · obtain ⟨hs, hge⟩ := PInt.isNeg_iff.mp hneg
+    simp only [hneg, if_true]
+    have hval : PInt.val t p = (p : Int) - B t.bits := by
+      unfold PInt.val; rw [hs, if_pos rfl, toInt_of_ge hge]
+    by_cases hkw : t.bits ≤ w
+    · obtain ⟨r, h1, h2, h3⟩ := asBuintLoop_neg_narrow (w := w) hn hp hs hge hkw
+      refine ⟨r, h1, h2, ?_⟩
+      have := U_lt h2
+      exact (wrapU_eq_of this (k := -1) (by rw [hval]; omega)).symm
+    · have hBe : B t.bits = 2 * (B t.bits / 2) := B_even hk
+      have hp' : 2 * (B t.bits - 1 - p) < B t.bits := by omega
+      have h := asBuintLoop_neg_wide (w := w) (n := n) hs (by omega) hp' n 0 (by omega)
+      rw [Nat.pow_zero, Nat.div_one, asBuintSt_zero, bnot_zero,
+        show B t.bits - 1 - (B t.bits - 1 - p) = p by omega] at h
+      have hwf := asBuintSt_WF w n (B t.bits - 1 - p) (Nat.le_refl n)
+      refine ⟨_, h, WF_bnot hwf, ?_⟩
+      rw [U_bnot hwf, asBuintSt_U, hval]
+      have e : (p : Int) - B t.bits = -(((B t.bits - 1 - p : Nat) : Int) + 1) := by omega
+      rw [e, wrapU_neg_succ (M_pos w n), M_eq_pow]
+  · have hnn : t.signed = true → 2 * p < B t.bits := by
+      intro hs
+      by_contra hc
+      exact hneg (PInt.isNeg_iff.mpr ⟨hs, by omega⟩)
+    simp only [hneg]
+    have h := asBuintLoop_nonneg (w := w) (n := n) hp hnn n 0 (by omega)
+    rw [Nat.pow_zero, Nat.div_one, asBuintSt_zero] at h
+    obtain ⟨r, h1, h2, h3⟩ := h
+    refine ⟨r, h1, h2, ?_⟩
+    have hval : PInt.val t p = (p : Int) := by
+      unfold PInt.val
+      split
+      · rename_i hs; exact toInt_of_lt (hnn hs)
+      · rfl
+    rw [h3, hval, wrapU_natCast]
+
+/-- C09: `bool` → `BUint<N>` -/
+theorem castFromBool_spec {w n : Nat} (hw : 1 ≤ w) (hn : 1 ≤ n) (b : Bool) :
+    WF w n (castFromBool n b) ∧ U w (castFromBool n b) = b.toNat := by
+  unfold castFromBool
+  cases b
+  · exact ⟨WF_zero w n, U_zero w n⟩
+  · exact ⟨WF_one hw hn, U_one hn⟩
+
+/-- C09: `char` → `BUint<N>` (a `char` is a `u32` code point) -/
+theorem castFromChar_spec {w n c : Nat} (hn : 1 ≤ n) (hc : c < B 32) :
+    CastOk w n (castFromChar w n c) (c : Int) :=
+  castFromPrim_spec (t := ⟨32, false⟩) hn (by decide) hc
+end UI
+
+/-- the number denoted by a digit list of the given signedness -/
+def valOf (s : Bool) (w : Nat) (x : List Nat) : Int := if s then S w x else (U w x : Int)
+
+theorem CastOk.ne_panic {w n : Nat} {o : Outcome (List Nat)} {z : Int} (h : CastOk w n o z) :
+    o ≠ .panic := by
+  obtain ⟨r, rfl, _⟩ := h; intro h; cases h
+
+/-- the result read as a signed number is the source value wrapped into the signed range -/
+theorem CastOk.signed {w n : Nat} {o : Outcome (List Nat)} {z : Int} (h : CastOk w n o z) :
+    ∃ r, o = .ok r ∧ S w r = wrapS (M w n) z := by
+  obtain ⟨r, rfl, hr, hu⟩ := h
+  exact ⟨r, rfl, by rw [S_eq hr, hu]; rfl⟩
+
+/-- a cast preserves every value that the target can represent -/
+theorem CastOk.value {w n : Nat} {o : Outcome (List Nat)} {z : Int} (h : CastOk w n o z)
+    (s : Bool) (hrep : if s then repS (M w n) z else repU (M w n) z) :
+    ∃ r, o = .ok r ∧ WF w n r ∧ valOf s w r = z := by
+  obtain ⟨r, rfl, hr, hu⟩ := h
+  refine ⟨r, rfl, hr, ?_⟩
+  unfold valOf
+  cases s
+  · simp only [Bool.false_eq_true, if_false] at hrep ⊢
+    rw [hu, wrapU_of_rep hrep]
+  · simp only [if_true] at hrep ⊢
+    rw [S_eq hr, hu]; exact wrapS_of_rep (M_pos w n) hrep
+
+/-- every bnum → bnum `CastFrom` impl: the source value modulo `2^BITS` of the target -/
+theorem castBnum_spec {w₁ n₁ w₂ : Nat} {x : List Nat} (s₁ s₂ : Bool) {n₂ : Nat} (hw₁ : 1 ≤ w₁)
+    (hw₂ : 1 ≤ w₂) (hn₁ : 1 ≤ n₁) (hn₂ : 1 ≤ n₂) (hdvd : w₁ ∣ w₂ ∨ w₂ ∣ w₁) (hx : WF w₁ n₁ x) :
+    CastOk w₂ n₂ (castBnum w₁ s₁ x w₂ n₂ s₂) (valOf s₁ w₁ x) := by
+  unfold castBnum valOf
+  by_cases heq : w₁ = w₂
+  · subst heq
+    simp only [if_true]
+    cases s₁ <;> cases s₂ <;> simp only [Bool.false_eq_true, if_false, if_true]
+    · exact UI.castFromU_spec n₂ hx
+    · exact (UI.castFromU_spec n₂ hx).map_id
+    · exact UI.castFromI_spec n₂ hw₁ hn₁ hx
+    · exact (UI.castFromI_spec n₂ hw₁ hn₁ hx).map_id
+  · simp only [heq, if_false]
+    by_cases hd : w₂ ∣ w₁
+    · obtain ⟨c, rfl⟩ := hd
+      have hc : 2 ≤ c := by
+        rcases c with _ | _ | c
+        · omega
+        · omega
+        · omega
+      rw [Nat.mul_comm] at hx ⊢
+      cases s₁ <;> cases s₂ <;> simp only [Bool.false_eq_true, if_false, if_true]
+      · exact UI.castFromUD_split_spec n₂ hc hw₂ hx
+      · exact (UI.castFromUD_split_spec n₂ hc hw₂ hx).map_id
+      · exact UI.castFromID_split_spec n₂ hc hw₂ hn₁ hx
+      · exact (UI.castFromID_split_spec n₂ hc hw₂ hn₁ hx).map_id
+    · obtain ⟨c, rfl⟩ := hdvd.resolve_right hd
+      have hc : 1 ≤ c := by
+        rcases c with _ | c
+        · omega
+        · omega
+      rw [Nat.mul_comm]
+      cases s₁ <;> cases s₂ <;> simp only [Bool.false_eq_true, if_false, if_true]
+      · exact UI.castFromUD_pack_spec hc hw₁ hn₁ hn₂ hx
+      · exact (UI.castFromUD_pack_spec hc hw₁ hn₁ hn₂ hx).map_id
+      · exact UI.castFromID_pack_spec hc hw₁ hn₁ hn₂ hx
+      · exact (UI.castFromID_pack_spec hc hw₁ hn₁ hn₂ hx).map_id
+
+/-- bnum → primitive -/
+theorem castToPrim_spec {w n : Nat} {x : List Nat} (s : Bool) (hw : 1 ≤ w) (hn : 1 ≤ n)
+    (hx : WF w n x) (t : PTy) :
+    castToPrim w s x t = .ok (wrapU (B t.bits) (valOf s w x)) := by
+  unfold castToPrim valOf
+  cases s
+  · simp only [Bool.false_eq_true, if_false]
+    rw [UI.castToPrim_eq hx, wrapU_natCast]
+  · simp only [if_true]
+    exact II.castToPrim_eq hw hn hx t
+
+/-- primitive → bnum -/
+theorem castFromPrim_spec {w n : Nat} {t : PTy} {p : Nat} (s : Bool) (hn : 1 ≤ n)
+    (hk : 1 ≤ t.bits) (hp : p < B t.bits) :
+    CastOk w n (castFromPrim w n s t p) (PInt.val t p) := by
+  unfold castFromPrim
+  cases s
+  · exact UI.castFromPrim_spec hn hk hp
+  · exact (UI.castFromPrim_spec hn hk hp).map_id
 
 end Bnum
